@@ -56,6 +56,14 @@ def mf_model(inputs, model_fidelity=(0,), delay_scale=0.0):
     return {'y0': np.exp(0.4 * x0) + x1 ** 2 + 0.5 ** (a + 1) * np.cos(3 * x0), 'y1': np.sin(x0 * x1) + 0.1 * a}
 
 
+def mf_failing_model(inputs, model_fidelity=(0,), delay_scale=0.0):
+    """multi-fidelity model that raises for x0 > 0.8: the error record of a failed sample must carry THAT sample's fidelity"""
+    x0 = float(np.atleast_1d(inputs['x0'])[0])
+    if x0 > 0.8:
+        raise ValueError(f'x0 too large at fidelity {tuple(int(v) for v in model_fidelity)}')
+    return mf_model(inputs, model_fidelity=model_fidelity, delay_scale=delay_scale)
+
+
 def mf_chain_m1(inputs, model_fidelity=(0,), delay_scale=0.0):
     x0, x1 = float(np.atleast_1d(inputs['x0'])[0]), float(np.atleast_1d(inputs['x1'])[0])
     a = int(model_fidelity[0])
